@@ -2,7 +2,7 @@
    Only statements here; proofs are in proofs/GenerateSpec.v (and RandomSpec, GenerateScalar). *)
 From Coq Require Import PrimFloat Permutation.
 Require Import D42.Prelude D42.PyFloat D42.Value D42.Regex D42.Schema D42.Validate D42.Conforms
-               D42.PyRandom D42.RegexGen D42.Generate D42.Sat.
+               D42.PyRandom D42.RegexGen D42.ReSupported D42.Generate D42.Sat.
 Require Import D42Gen.GenConsts.
 Require Import D42P.ValidateSpec D42P.RandomSpec D42P.GenerateSpec.
 
@@ -65,6 +65,17 @@ Qed.
 Example f06_repaired :
   sat w0 f06_s /\ match gen w0 f06_s [0] with Ok (v, _) => verdict f06_s v | _ => false end = true.
 Proof. split; [cbn; split; [reflexivity | vm_compute; reflexivity] | vm_compute; reflexivity]. Qed.
+
+(* a pattern schema: [a-c][^a]{1,3}\d* - [sat] is decidable here (re_total by computation) *)
+Definition ex_pat : schema :=
+  SStr None None None None None None
+       (Some ([], [RIn false [CRange 97 99]; RRepeat false 1 (Some 3) [RIn true [CLit 97]];
+                   RRepeat false 0 None [RIn false [CCat CDigit]]])).
+Example ex_pat_sat : wf ex_pat = true /\ sat w0 ex_pat.
+Proof. split; [vm_compute; reflexivity|]. cbn. repeat split; auto. Qed.
+Example ex_pat_gen :
+  match gen w0 ex_pat [2; 1; 5; 60; 3; 7; 4] with Ok (v, _) => verdict ex_pat v | _ => false end = true.
+Proof. vm_compute. reflexivity. Qed.
 
 (* F29 (open): the scaled bound overflows - excluded from [sat] by [prec_ok] *)
 Definition f29_s : schema :=                              (* float.min(1.0).max(1e308).precision(2) *)
